@@ -141,7 +141,7 @@ class _Fails:
     def case(self, check, key, nontrivial=True):
         self.n += 1
         if nontrivial:
-            self.keys.add((check, key))
+            self.keys.add(hash((check, key)))  # 64-bit hash: the key sets are merged across (forked) processes
         if len(self.samples) < 3 and self.n % 997 == 1:
             self.samples.append({"check": check, "input": key})
 
@@ -269,7 +269,7 @@ def _tuples_thorough(seed):
     c2 = _concats(ATOMS, 2)
     for t in itertools.product(c2, repeat=2):
         yield t
-    c2core = _concats(CORE, 2)
+    c2core = _concats(E2E_CORE, 2)
     for t in itertools.product(c2core, repeat=3):
         yield t
     r = rng(seed, "c14-sj")
@@ -374,7 +374,10 @@ def _model_target(tree, root_rel, text_path):
 def _judge(F, api, tree, root_rel, inp, text_path, status, body, exact=None):
     """oracle for one end-to-end response"""
     if status == "exc":
-        F.fail(api + "_exception", inp, body, "404 (refusal) or the requested file under the root")
+        # '@nul': the decoded request path has a NUL (syntactic class of the input, so that this case cannot use up
+        # the failure slots of other exceptions)
+        F.fail(api + "_exception" + ("@nul" if "\x00" in text_path else ""), inp, body,
+               "404 (refusal) or the requested file under the root")
         return
     if status == 404:
         want = _model_target(tree, root_rel, text_path)
